@@ -28,22 +28,25 @@ const qFactorWeightingKey = "q"
 // e.g. text/html,application/xhtml+xml,application/xml;q=0.9,image/webp,image/apng,*/*;q=0.8,application/signed-exchange;v=b3
 func sortedMimes(accept string) (sorted []mime) {
 	for _, each := range strings.Split(accept, ",") {
-		typeAndQuality := strings.Split(strings.Trim(each, " "), ";")
-		if len(typeAndQuality) == 1 {
-			sorted = insertMime(sorted, mime{typeAndQuality[0], 1.0})
-		} else {
-			// take factor
-			qAndWeight := strings.Split(typeAndQuality[1], "=")
+		typeAndParams := strings.Split(each, ";")
+		media := strings.Trim(typeAndParams[0], " ")
+		quality, valid := 1.0, true
+		// take factor ; it may follow other media type parameters
+		for _, param := range typeAndParams[1:] {
+			qAndWeight := strings.Split(param, "=")
 			if len(qAndWeight) == 2 && strings.Trim(qAndWeight[0], " ") == qFactorWeightingKey {
-				f, err := strconv.ParseFloat(qAndWeight[1], 64)
+				f, err := strconv.ParseFloat(strings.Trim(qAndWeight[1], " "), 64)
 				if err != nil {
 					traceLogger.Printf("unable to parse quality in %s, %v", each, err)
+					valid = false
 				} else {
-					sorted = insertMime(sorted, mime{typeAndQuality[0], f})
+					quality = f
 				}
-			} else {
-				sorted = insertMime(sorted, mime{typeAndQuality[0], 1.0})
+				break
 			}
+		}
+		if valid {
+			sorted = insertMime(sorted, mime{media, quality})
 		}
 	}
 	return
